@@ -257,6 +257,14 @@ func accAtom(a *Atom, r *row) bool {
 		return cmpOK(a.Op, cmpTime(r.acc.FirstUsage, *a.T))
 	case a.Field == "insertion_date":
 		return cmpOK(a.Op, cmpTime(r.acc.InsertionDate, *a.T))
+	case a.Field == "balance":
+		// no asset named: some asset the account has moved satisfies the test
+		for _, vol := range r.vols {
+			if vol != nil && cmpOK(a.Op, vol.Balance().Cmp(a.N)) {
+				return true
+			}
+		}
+		return false
 	case strings.HasPrefix(a.Field, "balance"):
 		asset, _ := balanceAsset(a.Field)
 		vol := r.vols[asset]
